@@ -3,7 +3,9 @@ from __future__ import annotations
 
 from .. import dag, flav
 from ..arr import Arr
-from ..pe import PE, PERaise
+from fractions import Fraction
+
+from ..pe import PE, PERaise, decide_on_values
 from ..src import load
 
 LEVEL = "proof"
@@ -75,7 +77,9 @@ def compare(chk, pe, opbase, qed, nf_in, nf_out, construct, where, inst):
 
 def _case(chk, case):
     src = load()
-    pe = PE(src)
+    box = [None]
+    pe = PE(src, assume=lambda text, env: decide_on_values(box[0], text, env))    # symbolic member values are generic: not within a tolerance of zero
+    box[0] = pe
     f_phys = src.func(f"{PH}.ad_to_evol_map")
     f_match = src.func(f"{MC}.split_ad_to_evol_map")
     f_rng = src.func(f"{FL}.get_range")
@@ -106,9 +110,15 @@ def _case(chk, case):
                    f"qed={qed}, nf={nf}: weights of `{bad[0] if bad else ''}`: {bad[1] if bad else ''} (order ph, tbar..dbar, g, d..t)",
                    where=f.where, instance=f"qed={qed},nf={nf}", detail=f"{len(B)} labels", how="exact")
     elif kind == "physical":
-        _, qed, nf = case
-        inst = f"physical,qed={qed},nf={nf}"
+        _, qed, nf = case[:3]
+        tiny = len(case) > 3
+        inst = f"physical,qed={qed},nf={nf}" + (",all member values of size 1e-10" if tiny else "")
         opm = physical_members(pe, qed)
+        if tiny:
+            # members that are small but not zero (a very short step, a suppressed mixing): they are rotated like any other
+            for i, (k_, m_) in enumerate(sorted(opm.items())):
+                m_.attrs["value"] = Arr.from_nested([[Fraction(i + 1, 10 ** 10)]])
+                m_.attrs["error"] = Arr.from_nested([[Fraction(i + 1, 10 ** 11)]])
         ob = pe.apply(pe.getattr(pe.import_ref(PH), "ad_to_evol_map"), [opm, nf, dag.sym("q2"), qed], {})
         rng = pe.call(f_rng.qname, [list(pe.getattr(ob, "op_members").keys()), qed])
         chk.decide(tuple(rng) == (nf, nf), "range-of-label-set", f_rng.qname, f"{inst}: get_range = {rng}, expected ({nf}, {nf})",
@@ -153,6 +163,8 @@ def run(chk):
         for nf in (3, 4, 5, 6):
             cases.append(("table", qed, nf))
             cases.append(("physical", qed, nf))
+            if nf in (4, 6):
+                cases.append(("physical", qed, nf, "tiny"))
         for nf in (3, 4, 5):
             cases.append(("matching", qed, nf))
         for nf_in, nf_out in ((3, 4), (4, 5), (5, 6), (4, 3), (6, 5)):
